@@ -1,8 +1,1452 @@
-//! stub — to be implemented
-use crate::common::{Ctx, Report};
+//! C12 — traffic only goes to backends that are eligible right now.
+//!
+//! Direct lab on `sozu_lib::backends::{BackendMap, BackendList, Backend}`, the six policies of
+//! `sozu_lib::load_balancing`, `sozu_lib::retry` and the health state reachable through public
+//! fields. A history is a random sequence of control-plane and data-plane operations on two
+//! clusters sharing one pool of ids / addresses / sticky ids; after every operation a round of
+//! selections is issued through every public selection entry point.
+//!
+//! Oracles (written from the statement, not from sozu's cascade):
+//! * eligibility predicate recomputed from public fields immediately before and after each call;
+//!   a returned backend ineligible in both snapshots is a violation unless nothing is eligible
+//!   and the returned one is Normal and not backing off (documented fail-open, doc/metrics.md
+//!   `backends.fail_open`, doc/health_checks.md "Fail-open routing");
+//! * backup chosen while a primary is eligible; valid sticky id not honoured;
+//! * HRW / Maglev: same key, unchanged state => same backend (twice in a row, and against a memo
+//!   kept while the state signature stays unchanged across unrelated operations);
+//! * connection counter conservation: value == number of connections the harness holds open on
+//!   that backend object, after every operation; zero after everything was closed; a panic under
+//!   /repo (overflow checks are on) is a violation.
 
-pub fn run(_ctx: &Ctx) -> Report {
-    let mut rep = Report::new("exploration", "not implemented");
-    rep.broken("check not implemented yet");
+use std::{cell::RefCell, collections::HashMap, net::SocketAddr, rc::Rc, time::Duration};
+
+use serde_json::{Value, json};
+use sozu_command_lib::proto::command::{
+    HealthCheckConfig, LoadBalancingAlgorithms, LoadBalancingParams, LoadMetric,
+};
+use sozu_lib::{
+    backends::{Backend, BackendError, BackendMap, BackendStatus},
+    retry::{ExponentialBackoffPolicy, RetryAction, RetryPolicy},
+};
+
+use crate::common::{Ctx, Report, Rng, guard, par_cases};
+
+const CL: [&str; 2] = ["c0", "c1"];
+const IDS: [&str; 6] = ["b0", "b1", "b2", "b3", "b4", "b5"];
+const STICKY: [&str; 3] = ["s0", "s1", "s2"];
+/// loopback addresses nobody listens on: a non-blocking connect() returns EINPROGRESS => `Ok`
+const GOOD_ADDRS: [&str; 6] = [
+    "127.12.0.1:11",
+    "127.12.0.1:13",
+    "127.12.0.2:11",
+    "127.12.0.3:11",
+    "127.12.0.3:13",
+    "127.12.0.4:11",
+];
+/// multicast destinations: connect() fails synchronously with ENETUNREACH, no packet leaves
+const FAIL_ADDRS: [&str; 2] = ["239.12.0.1:11", "239.12.0.2:11"];
+
+#[derive(Clone, Copy, PartialEq, Eq, Debug)]
+enum Algo {
+    RoundRobin,
+    Random,
+    LeastLoaded,
+    PowerOfTwo,
+    Hrw,
+    Maglev,
+}
+
+impl Algo {
+    const ALL: [Algo; 6] = [
+        Algo::RoundRobin,
+        Algo::Random,
+        Algo::LeastLoaded,
+        Algo::PowerOfTwo,
+        Algo::Hrw,
+        Algo::Maglev,
+    ];
+    fn name(self) -> &'static str {
+        match self {
+            Algo::RoundRobin => "round_robin",
+            Algo::Random => "random",
+            Algo::LeastLoaded => "least_loaded",
+            Algo::PowerOfTwo => "power_of_two",
+            Algo::Hrw => "hrw",
+            Algo::Maglev => "maglev",
+        }
+    }
+    fn proto(self) -> LoadBalancingAlgorithms {
+        match self {
+            Algo::RoundRobin => LoadBalancingAlgorithms::RoundRobin,
+            Algo::Random => LoadBalancingAlgorithms::Random,
+            Algo::LeastLoaded => LoadBalancingAlgorithms::LeastLoaded,
+            Algo::PowerOfTwo => LoadBalancingAlgorithms::PowerOfTwo,
+            Algo::Hrw => LoadBalancingAlgorithms::Hrw,
+            Algo::Maglev => LoadBalancingAlgorithms::Maglev,
+        }
+    }
+    fn affine(self) -> bool {
+        matches!(self, Algo::Hrw | Algo::Maglev)
+    }
+}
+
+/// public fields of one backend of a cluster's live list, read at one instant
+#[derive(Clone, Debug, PartialEq)]
+struct BSnap {
+    ptr: usize,
+    id: String,
+    addr: SocketAddr,
+    /// 0 Normal, 1 Closing, 2 Closed
+    status: u8,
+    healthy: bool,
+    /// `retry_policy.can_try() == Some(OKAY)`: not inside the failure back-off window
+    retry_ok: bool,
+    down: bool,
+    /// only with `--opt strict_down=1`: an exhausted retry budget counts as ineligible
+    down_blocks: bool,
+    backup: bool,
+    sticky: Option<String>,
+    weight: Option<i32>,
+    conns: usize,
+    reqs: usize,
+    /// (id, address) belongs to the cluster according to the harness's own record of the
+    /// add/remove history (remove is address-keyed, as documented on `remove_backend`)
+    member: bool,
+}
+
+impl BSnap {
+    /// the statement's predicate: belongs to the cluster, not being removed, not marked
+    /// unhealthy, not inside its failure back-off
+    fn eligible(&self) -> bool {
+        self.member && self.status == 0 && self.healthy && self.retry_ok && !self.down_blocks
+    }
+    /// what fail-open may use: normal, non-backing-off backends (of the cluster)
+    fn fail_open_ok(&self) -> bool {
+        self.member && self.status == 0 && self.retry_ok
+    }
+    fn reason(&self) -> &'static str {
+        if !self.member {
+            "removed"
+        } else if self.status == 1 {
+            "closing"
+        } else if self.status == 2 {
+            "closed"
+        } else if !self.healthy {
+            "unhealthy"
+        } else if !self.retry_ok {
+            "backoff"
+        } else if self.down_blocks {
+            "down"
+        } else {
+            "eligible"
+        }
+    }
+    fn json(&self) -> Value {
+        let status = ["Normal", "Closing", "Closed"][self.status as usize];
+        json!({"id": self.id, "addr": self.addr.to_string(),
+            "status": status,
+            "healthy": self.healthy, "retry_okay": self.retry_ok, "down": self.down,
+            "backup": self.backup, "sticky": self.sticky, "weight": self.weight,
+            "conns": self.conns, "reqs": self.reqs, "member": self.member,
+            "eligible": self.eligible()})
+    }
+    /// the part of the state the affinity relation is conditioned on
+    fn sig(&self) -> (usize, u8, bool, bool, bool, Option<i32>, bool) {
+        (self.ptr, self.status, self.healthy, self.retry_ok, self.backup, self.weight, self.member)
+    }
+}
+
+fn snaps_json(s: &[BSnap]) -> Value {
+    Value::Array(s.iter().map(|b| b.json()).collect())
+}
+
+type Sig = Vec<(usize, u8, bool, bool, bool, Option<i32>, bool)>;
+
+fn sig_of(s: &[BSnap]) -> Sig {
+    s.iter().map(|b| b.sig()).collect()
+}
+
+#[derive(Clone, Debug)]
+enum Api {
+    ListKey(Option<u64>),
+    MapKey(Option<u64>),
+    MapConnect,
+    MapSticky(String),
+}
+
+impl Api {
+    fn name(&self) -> &'static str {
+        match self {
+            Api::ListKey(None) => "BackendList::next_available_backend",
+            Api::ListKey(Some(_)) => "BackendList::next_available_backend_with_key",
+            Api::MapKey(_) => "BackendMap::backend_from_cluster_id_with_key",
+            Api::MapConnect => "BackendMap::backend_from_cluster_id",
+            Api::MapSticky(_) => "BackendMap::backend_from_sticky_session",
+        }
+    }
+}
+
+#[derive(Clone, Debug, PartialEq)]
+enum Got {
+    None,
+    Ptr(usize),
+    IdAddr(String, SocketAddr),
+    ConnectFailed(SocketAddr),
+    OtherError(String),
+}
+
+struct Obj {
+    rc: Rc<RefCell<Backend>>,
+    cluster: usize,
+    /// connections the harness currently holds open on this object (Σ inc − Σ dec)
+    held: usize,
+}
+
+struct Conn {
+    obj: usize,
+    requests: usize,
+    established: bool,
+}
+
+#[derive(Default)]
+struct Reached {
+    backoff: bool,
+    down: bool,
+    down_okay: bool,
+    unhealthy: bool,
+    closing: bool,
+    closed: bool,
+    fail_open: bool,
+}
+
+struct Lab<'a> {
+    case: u64,
+    seed: u64,
+    rng: Rng,
+    map: BackendMap,
+    members: [Vec<(String, SocketAddr)>; 2],
+    objs: Vec<Obj>,
+    conns: Vec<Conn>,
+    algo: [Algo; 2],
+    algo_gen: [u32; 2],
+    thresholds: [(u32, u32); 2],
+    memo: [Vec<(u64, usize)>; 2],
+    memo_sig: [Option<(u32, Sig)>; 2],
+    keys: Vec<u64>,
+    addrs: Vec<SocketAddr>,
+    extreme_weights: bool,
+    close_by_address: bool,
+    strict_down: bool,
+    allow_sleep: bool,
+    slept: bool,
+    log: &'a RefCell<Vec<String>>,
+    shape: Vec<u8>,
+    reached: Reached,
+    some_selection: bool,
+    max_members: usize,
+    dead: bool,
+}
+
+fn status_code(s: &BackendStatus) -> u8 {
+    match s {
+        BackendStatus::Normal => 0,
+        BackendStatus::Closing => 1,
+        BackendStatus::Closed => 2,
+    }
+}
+
+impl<'a> Lab<'a> {
+    fn note(&self, s: String) {
+        self.log.borrow_mut().push(s);
+    }
+
+    fn snapshot(&self, c: usize) -> Vec<BSnap> {
+        let Some(list) = self.map.backends.get(CL[c]) else {
+            return Vec::new();
+        };
+        list.backends
+            .iter()
+            .map(|rc| {
+                let b = rc.borrow();
+                BSnap {
+                    ptr: Rc::as_ptr(rc) as usize,
+                    id: b.backend_id.clone(),
+                    addr: b.address,
+                    status: status_code(&b.status),
+                    healthy: b.health.is_healthy(),
+                    retry_ok: b.retry_policy.can_try() == Some(RetryAction::OKAY),
+                    down: b.retry_policy.is_down(),
+                    down_blocks: self.strict_down && b.retry_policy.is_down(),
+                    backup: b.backup,
+                    sticky: b.sticky_id.clone(),
+                    weight: b.load_balancing_parameters.as_ref().map(|p| p.weight),
+                    conns: b.active_connections,
+                    reqs: b.active_requests,
+                    member: self.members[c]
+                        .iter()
+                        .any(|(i, a)| *i == b.backend_id && *a == b.address),
+                }
+            })
+            .collect()
+    }
+
+    /// register backend objects of the live lists the harness has not seen yet
+    fn discover(&mut self) {
+        for c in 0..2 {
+            let Some(list) = self.map.backends.get(CL[c]) else { continue };
+            for rc in &list.backends {
+                if !self.objs.iter().any(|o| Rc::ptr_eq(&o.rc, rc)) {
+                    self.objs.push(Obj { rc: rc.clone(), cluster: c, held: 0 });
+                }
+            }
+        }
+    }
+
+    fn obj_of_ptr(&self, ptr: usize) -> Option<usize> {
+        self.objs.iter().position(|o| Rc::as_ptr(&o.rc) as usize == ptr)
+    }
+
+    fn live_obj(&mut self, c: usize) -> Option<usize> {
+        let list = self.map.backends.get(CL[c])?;
+        if list.backends.is_empty() {
+            return None;
+        }
+        let rc = list.backends[self.rng.usize_below(list.backends.len())].clone();
+        self.objs.iter().position(|o| Rc::ptr_eq(&o.rc, &rc))
+    }
+
+    fn describe(&self, o: usize) -> String {
+        let b = self.objs[o].rc.borrow();
+        format!("{}/{}@{}", CL[self.objs[o].cluster], b.backend_id, b.address)
+    }
+
+    fn witness(&self, extra: Value) -> Value {
+        let mut w = json!({"case": self.case, "seed": self.seed,
+            "algo": {"c0": self.algo[0].name(), "c1": self.algo[1].name()},
+            "ops": self.log.borrow().clone()});
+        if let (Some(w), Value::Object(e)) = (w.as_object_mut(), extra) {
+            for (k, v) in e {
+                w.insert(k, v);
+            }
+        }
+        w
+    }
+
+    fn mark_states(&mut self, rep: &mut Report, s: &[BSnap]) {
+        for b in s {
+            if !b.retry_ok {
+                self.reached.backoff = true;
+            }
+            if b.down {
+                self.reached.down = true;
+                if b.retry_ok {
+                    self.reached.down_okay = true;
+                }
+            }
+            if !b.healthy {
+                self.reached.unhealthy = true;
+            }
+            if b.status == 1 {
+                self.reached.closing = true;
+            }
+            if b.status == 2 {
+                self.reached.closed = true;
+            }
+        }
+        let _ = rep;
+    }
+
+    // ------------------------------------------------------------------ selections
+
+    /// Issue one selection on cluster `c`, judge it, return (chosen ptr, before, after)
+    fn select(&mut self, rep: &mut Report, c: usize, api: Api) -> (Option<usize>, Vec<BSnap>, Vec<BSnap>) {
+        let cl = CL[c];
+        let before = self.snapshot(c);
+        let mut new_conn: Option<Rc<RefCell<Backend>>> = None;
+        let got = match &api {
+            Api::ListKey(key) => match self.map.backends.get_mut(cl) {
+                None => Got::None,
+                Some(list) => {
+                    let r = match key {
+                        None => list.next_available_backend(),
+                        Some(k) => list.next_available_backend_with_key(Some(*k)),
+                    };
+                    match r {
+                        None => Got::None,
+                        Some(rc) => Got::Ptr(Rc::as_ptr(&rc) as usize),
+                    }
+                }
+            },
+            Api::MapKey(key) => match self.map.backend_from_cluster_id_with_key(cl, *key) {
+                Ok((id, addr)) => Got::IdAddr(id, addr),
+                Err(BackendError::NoBackendForCluster(_)) => Got::None,
+                Err(e) => Got::OtherError(e.to_string()),
+            },
+            Api::MapConnect | Api::MapSticky(_) => {
+                let r = match &api {
+                    Api::MapSticky(sid) => self.map.backend_from_sticky_session(cl, sid),
+                    _ => self.map.backend_from_cluster_id(cl),
+                };
+                match r {
+                    Ok((rc, stream)) => {
+                        drop(stream); // closes the socket
+                        let p = Rc::as_ptr(&rc) as usize;
+                        new_conn = Some(rc);
+                        Got::Ptr(p)
+                    }
+                    Err(BackendError::NoBackendForCluster(_)) => Got::None,
+                    Err(BackendError::ConnectionFailures { backend_address, .. }) => {
+                        Got::ConnectFailed(backend_address)
+                    }
+                    Err(BackendError::MioConnection(_)) => {
+                        // sticky path: try_connect's error is returned as is; the address is the
+                        // sticky backend's
+                        let a = match &api {
+                            Api::MapSticky(sid) => before
+                                .iter()
+                                .find(|b| b.sticky.as_deref() == Some(sid.as_str()))
+                                .map(|b| b.addr),
+                            _ => None,
+                        };
+                        match a {
+                            Some(a) => Got::ConnectFailed(a),
+                            None => Got::OtherError("MioConnection without sticky backend".into()),
+                        }
+                    }
+                    Err(e) => Got::OtherError(e.to_string()),
+                }
+            }
+        };
+        let after = self.snapshot(c);
+        let algo = self.algo[c];
+        rep.obs("selections_total", 1);
+        rep.obs(&format!("selections/{}", algo.name()), 1);
+        let key = match &api {
+            Api::ListKey(k) | Api::MapKey(k) => *k,
+            _ => None,
+        };
+        rep.obs(if key.is_some() { "selections_keyed" } else { "selections_unkeyed" }, 1);
+        self.mark_states(rep, &before);
+
+        // a successful connecting selection opened a connection the harness now holds
+        if let Some(rc) = new_conn {
+            rep.obs("connects_ok", 1);
+            match self.objs.iter().position(|o| Rc::ptr_eq(&o.rc, &rc)) {
+                Some(o) => {
+                    self.objs[o].held += 1;
+                    self.conns.push(Conn { obj: o, requests: 0, established: false });
+                }
+                None => {
+                    // unknown object: not in any list the harness has seen
+                    self.objs.push(Obj { rc, cluster: c, held: 1 });
+                    let o = self.objs.len() - 1;
+                    self.conns.push(Conn { obj: o, requests: 0, established: false });
+                }
+            }
+        }
+
+        let find = |s: &[BSnap]| -> Option<BSnap> {
+            match &got {
+                Got::Ptr(p) => s.iter().find(|b| b.ptr == *p).cloned(),
+                Got::IdAddr(id, addr) => s.iter().find(|b| b.id == *id && b.addr == *addr).cloned(),
+                _ => None,
+            }
+        };
+        let desc = |b: &Option<BSnap>| match b {
+            Some(b) => format!("{}@{}", b.id, b.addr),
+            None => format!("{got:?}"),
+        };
+        let b0 = find(&before);
+        let b1 = find(&after);
+        self.note(format!(
+            "select {cl} [{}] {}{} -> {}",
+            algo.name(),
+            api.name(),
+            match &api {
+                Api::ListKey(Some(k)) | Api::MapKey(Some(k)) => format!(" key={k}"),
+                Api::MapKey(None) => " key=None".into(),
+                Api::MapSticky(s) => format!(" sticky={s}"),
+                _ => String::new(),
+            },
+            match &got {
+                Got::None => "none".to_owned(),
+                Got::ConnectFailed(a) => format!("connect failed {a}"),
+                Got::OtherError(e) => format!("error {e}"),
+                _ => desc(&b0),
+            }
+        ));
+        let ctx_json = |this: &Self| {
+            this.witness(json!({"cluster": cl, "policy": algo.name(), "api": api.name(),
+                "key": key, "sticky_asked": match &api { Api::MapSticky(s) => Some(s.clone()), _ => None },
+                "returned": desc(&b0), "before": snaps_json(&before), "after": snaps_json(&after)}))
+        };
+
+        let any0 = before.iter().any(|b| b.eligible());
+        let any1 = after.iter().any(|b| b.eligible());
+
+        // ---- sticky oracle
+        let mut sticky_honoured = false;
+        if let Api::MapSticky(sid) = &api {
+            rep.obs("sticky_probes", 1);
+            let s0: Vec<&BSnap> = before.iter().filter(|b| b.sticky.as_deref() == Some(sid.as_str())).collect();
+            if let Some(b) = &b0 {
+                sticky_honoured = b.sticky.as_deref() == Some(sid.as_str());
+            }
+            if s0.is_empty() {
+                rep.obs("sticky_unknown_id_fallback", 1);
+            } else if s0.len() > 1 {
+                rep.obs("sticky_exempt_ambiguous_id", 1);
+            } else if !s0[0].eligible() {
+                rep.obs("sticky_backend_ineligible_fallback", 1);
+            } else {
+                let want = s0[0];
+                let honoured = match &got {
+                    Got::Ptr(p) => *p == want.ptr,
+                    Got::ConnectFailed(a) => *a == want.addr,
+                    _ => false,
+                };
+                if honoured {
+                    rep.obs("sticky_hits", 1);
+                    if matches!(got, Got::ConnectFailed(_)) {
+                        rep.obs("sticky_hits_connect_failed", 1);
+                    }
+                } else {
+                    let still = after.iter().find(|b| b.ptr == want.ptr).map(|b| b.eligible()).unwrap_or(false);
+                    if still {
+                        rep.violation(
+                            "sticky/valid_id_with_eligible_backend_not_honoured",
+                            &format!("sticky id {sid} names {}@{} which is eligible before and after the call, but backend_from_sticky_session returned {}", want.id, want.addr, desc(&b0)),
+                            ctx_json(self),
+                        );
+                        self.dead = true;
+                        return (None, before, after);
+                    } else {
+                        rep.inconclusive("eligibility changed during call");
+                    }
+                }
+            }
+        }
+
+        // ---- eligibility oracle
+        match &got {
+            Got::None => {
+                rep.obs("selections_returned_none", 1);
+                if any0 && any1 {
+                    // safety property only: not a C12 violation, but worth seeing in the evidence
+                    rep.obs("selections_none_while_eligible_exists", 1);
+                }
+                return (None, before, after);
+            }
+            Got::ConnectFailed(_) => {
+                rep.obs("connects_failed_sync_not_judged", 1);
+                return (None, before, after);
+            }
+            Got::OtherError(e) => {
+                rep.obs("selections_other_error", 1);
+                self.note(format!("  (other error: {e})"));
+                return (None, before, after);
+            }
+            _ => {}
+        }
+        self.some_selection = true;
+        let (Some(b0), Some(b1)) = (b0.clone(), b1.clone()) else {
+            rep.violation(
+                "select/returned_backend_not_in_cluster_list",
+                &format!("{} on {cl} returned {got:?} which is not in the cluster's live backend list", api.name()),
+                ctx_json(self),
+            );
+            self.dead = true;
+            return (None, before, after);
+        };
+        let chosen = Some(b0.ptr);
+        let (e0, e1) = (b0.eligible(), b1.eligible());
+        if e0 && e1 {
+            rep.obs("selections_eligible", 1);
+            if b0.down {
+                rep.obs("selections_of_down_backend_outside_backoff", 1);
+            }
+            // ---- backup oracle
+            if b0.backup {
+                let p0 = before.iter().any(|b| b.eligible() && !b.backup);
+                let p1 = after.iter().any(|b| b.eligible() && !b.backup);
+                if sticky_honoured {
+                    rep.obs("backup_selected_by_sticky_exempt", 1);
+                } else if p0 && p1 {
+                    rep.violation(
+                        "select/backup_while_primary_eligible",
+                        &format!("{} on {cl} returned backup {}@{} although a primary is eligible before and after the call", api.name(), b0.id, b0.addr),
+                        ctx_json(self),
+                    );
+                    self.dead = true;
+                    return (None, before, after);
+                } else if p0 != p1 {
+                    rep.inconclusive("eligibility changed during call");
+                } else {
+                    rep.obs("backup_selections", 1);
+                }
+            }
+        } else if e0 != e1 {
+            rep.inconclusive("eligibility changed during call");
+        } else if any0 != any1 {
+            rep.inconclusive("eligibility changed during call");
+        } else if any0 {
+            rep.violation(
+                &format!("select/ineligible/{}/while_eligible_exists", b0.reason()),
+                &format!("{} on {cl} returned {}@{} which is {} before and after the call, although an eligible backend exists", api.name(), b0.id, b0.addr, b0.reason()),
+                ctx_json(self),
+            );
+            self.dead = true;
+            return (None, before, after);
+        } else {
+            let (f0, f1) = (b0.fail_open_ok(), b1.fail_open_ok());
+            if f0 && f1 {
+                rep.obs("selections_fail_open", 1);
+                self.reached.fail_open = true;
+            } else if f0 != f1 {
+                rep.inconclusive("eligibility changed during call");
+            } else {
+                rep.violation(
+                    &format!("select/ineligible/{}/fail_open", b0.reason()),
+                    &format!("{} on {cl} returned {}@{} which is {} before and after the call; nothing is eligible, but fail-open is documented for Normal backends outside their back-off only", api.name(), b0.id, b0.addr, b0.reason()),
+                    ctx_json(self),
+                );
+                self.dead = true;
+                return (None, before, after);
+            }
+        }
+        (chosen, before, after)
+    }
+
+    /// the selections issued after every operation
+    fn round(&mut self, rep: &mut Report, c: usize) {
+        if self.dead {
+            return;
+        }
+        let s = self.snapshot(c);
+        let sig = (self.algo_gen[c], sig_of(&s));
+        if self.memo_sig[c].as_ref() != Some(&sig) {
+            self.memo[c].clear();
+            self.memo_sig[c] = Some(sig.clone());
+        }
+        let algo = self.algo[c];
+        self.select(rep, c, Api::ListKey(None));
+        if self.dead {
+            return;
+        }
+        // same key twice in a row
+        let k = *self.rng.pick(&self.keys);
+        let (r1, s0, s1) = self.select(rep, c, Api::ListKey(Some(k)));
+        if self.dead {
+            return;
+        }
+        let use_map = self.rng.bool();
+        let (r2, s1b, s2) = self.select(rep, c, if use_map { Api::MapKey(Some(k)) } else { Api::ListKey(Some(k)) });
+        if self.dead {
+            return;
+        }
+        let stable = sig_of(&s0) == sig.1 && sig_of(&s1) == sig.1 && sig_of(&s1b) == sig.1 && sig_of(&s2) == sig.1;
+        if algo.affine() {
+            if !stable {
+                rep.obs("affinity_skipped_state_changed", 1);
+            } else if let (Some(a), Some(b)) = (r1, r2) {
+                rep.obs(&format!("affinity_comparisons_consecutive/{}", algo.name()), 1);
+                if a != b {
+                    self.affinity_violation(rep, c, k, a, b, &s0, "twice in a row");
+                    return;
+                }
+                // against the memo (same key seen earlier, state signature unchanged since)
+                if let Some((_, m)) = self.memo[c].iter().find(|(mk, _)| *mk == k).copied() {
+                    rep.obs(&format!("affinity_comparisons_memo/{}", algo.name()), 1);
+                    if m != a {
+                        self.affinity_violation(rep, c, k, m, a, &s0, "after unrelated operations");
+                        return;
+                    }
+                } else {
+                    self.memo[c].push((k, a));
+                }
+            }
+        }
+        if self.rng.chance(1, 5) {
+            self.select(rep, c, Api::MapKey(None));
+            if self.dead {
+                return;
+            }
+        }
+        if self.rng.chance(1, 3) {
+            self.select(rep, c, Api::MapConnect);
+            if self.dead {
+                return;
+            }
+        }
+        if self.rng.chance(1, 3) {
+            let present: Vec<String> = self.snapshot(c).into_iter().filter_map(|b| b.sticky).collect();
+            let sid = if self.rng.chance(1, 8) {
+                "zz".to_owned()
+            } else if !present.is_empty() && self.rng.chance(2, 3) {
+                self.rng.pick(&present).clone()
+            } else {
+                (*self.rng.pick(&STICKY)).to_owned()
+            };
+            self.select(rep, c, Api::MapSticky(sid));
+        }
+    }
+
+    fn affinity_violation(&mut self, rep: &mut Report, c: usize, k: u64, a: usize, b: usize, s: &[BSnap], when: &str) {
+        let name = |p: usize| s.iter().find(|x| x.ptr == p).map(|x| format!("{}@{}", x.id, x.addr)).unwrap_or_else(|| "?".into());
+        let algo = self.algo[c];
+        // weights a configuration file can express are 0..=255 (u8); the command API carries
+        // an unvalidated int32: keep the two classes apart
+        let beyond = s.iter().any(|x| x.weight.is_some_and(|w| !(0..=255).contains(&w)));
+        let class = if beyond { "weights_beyond_0_255" } else { "weights_within_0_255" };
+        rep.violation(
+            &format!("affinity/{}/one_key_two_backends/{class}", algo.name()),
+            &format!("{} on {} mapped key {k} to {} and then to {} ({when}) while no backend's membership, status, health, back-off, backup flag or weight changed", algo.name(), CL[c], name(a), name(b)),
+            self.witness(json!({"cluster": CL[c], "policy": algo.name(), "key": k, "first": name(a), "second": name(b), "state": snaps_json(s)})),
+        );
+        self.dead = true;
+    }
+
+    // ------------------------------------------------------------------ conservation
+
+    fn check_counters(&mut self, rep: &mut Report, when: &str) {
+        if self.dead {
+            return;
+        }
+        for o in 0..self.objs.len() {
+            let actual = self.objs[o].rc.borrow().active_connections;
+            rep.obs("conservation_checks", 1);
+            if actual != self.objs[o].held {
+                let d = self.describe(o);
+                let status = format!("{:?}", self.objs[o].rc.borrow().status);
+                let sig = if when == "end" { "counters/connections_nonzero_after_all_closed" } else { "counters/connections_drift" };
+                rep.violation(
+                    sig,
+                    &format!("backend {d} (status {status}): active_connections = {actual}, connections opened minus closed = {} ({when})", self.objs[o].held),
+                    self.witness(json!({"backend": d, "status": status, "active_connections": actual, "expected": self.objs[o].held, "when": when})),
+                );
+                self.dead = true;
+                return;
+            }
+        }
+    }
+
+    fn close_conn(&mut self, rep: &mut Report, i: usize, by_address: bool) {
+        let conn = self.conns.swap_remove(i);
+        let o = conn.obj;
+        let c = self.objs[o].cluster;
+        {
+            let mut b = self.objs[o].rc.borrow_mut();
+            // mirrors the protocol code: requests of a closing connection are released
+            b.active_requests = b.active_requests.saturating_sub(conn.requests);
+        }
+        let in_list = self
+            .map
+            .backends
+            .get(CL[c])
+            .map(|l| l.backends.iter().any(|rc| Rc::ptr_eq(rc, &self.objs[o].rc)))
+            .unwrap_or(false);
+        if !in_list && self.objs[o].held > 0 {
+            rep.obs("closes_on_removed_backend", 1);
+        }
+        if by_address && in_list {
+            let addr = self.objs[o].rc.borrow().address;
+            let peers: Vec<usize> = (0..self.objs.len())
+                .filter(|&p| {
+                    self.objs[p].cluster == c
+                        && self.objs[p].rc.borrow().address == addr
+                        && self.map.backends.get(CL[c]).map(|l| l.backends.iter().any(|rc| Rc::ptr_eq(rc, &self.objs[p].rc))).unwrap_or(false)
+                })
+                .collect();
+            let before: Vec<usize> = peers.iter().map(|&p| self.objs[p].rc.borrow().active_connections).collect();
+            self.map.close_backend_connection(CL[c], &addr);
+            let after: Vec<usize> = peers.iter().map(|&p| self.objs[p].rc.borrow().active_connections).collect();
+            self.note(format!("close_backend_connection {} {addr} (connection held on {})", CL[c], self.describe(o)));
+            rep.obs("closes_by_address", 1);
+            if peers.len() > 1 {
+                rep.obs("closes_by_address_shared_address", 1);
+            }
+            self.objs[o].held -= 1;
+            let me = peers.iter().position(|&p| p == o).unwrap();
+            if before[me] == after[me] + 1 && before.iter().zip(&after).enumerate().all(|(i, (b, a))| i == me || a == b) {
+                return;
+            }
+            let d = self.describe(o);
+            let sig = if before == after {
+                "counters/close_by_address_decrements_nothing"
+            } else {
+                "counters/close_by_address_decrements_other_backend"
+            };
+            rep.violation(
+                sig,
+                &format!("a connection held on {d} was closed through BackendMap::close_backend_connection({}, {addr}); counters of the backends at that address went {before:?} -> {after:?} (index {me} is the connection's backend)", CL[c]),
+                self.witness(json!({"backend": d, "peers": peers.iter().map(|&p| self.describe(p)).collect::<Vec<_>>(), "before": before, "after": after})),
+            );
+            self.dead = true;
+            return;
+        }
+        let r = self.objs[o].rc.borrow_mut().dec_connections();
+        self.objs[o].held -= 1;
+        self.note(format!("dec_connections {} -> {r:?}", self.describe(o)));
+        rep.obs("closes", 1);
+    }
+
+    // ------------------------------------------------------------------ operations
+
+    fn gen_weight(&mut self) -> Option<LoadBalancingParams> {
+        let w = match self.rng.below(20) {
+            0..=7 => return None,
+            8 => 0,
+            9 => 1,
+            10 => 100,
+            11 => 255,
+            12..=16 => self.rng.range(0, 255) as i32,
+            _ => {
+                if self.extreme_weights {
+                    *self.rng.pick(&[-1, i32::MIN, i32::MAX, 1_000_000, 70_000, 65_537, 1 << 30])
+                } else {
+                    self.rng.range(0, 255) as i32
+                }
+            }
+        };
+        Some(LoadBalancingParams { weight: w })
+    }
+
+    fn op_add(&mut self, rep: &mut Report, c: usize) {
+        let mem = self.members[c].clone();
+        let (id, addr, kind) = if !mem.is_empty() && self.rng.chance(1, 2) {
+            let (mid, maddr) = self.rng.pick(&mem).clone();
+            match self.rng.below(3) {
+                0 => {
+                    // same id, other address
+                    let a = *self.rng.pick(&self.addrs);
+                    (mid, a, 1u8)
+                }
+                1 => {
+                    // same address, other id
+                    let i = (*self.rng.pick(&IDS)).to_owned();
+                    (i, maddr, 2u8)
+                }
+                _ => (mid, maddr, 3u8), // same (id, address): update in place
+            }
+        } else {
+            ((*self.rng.pick(&IDS)).to_owned(), *self.rng.pick(&self.addrs), 0u8)
+        };
+        let sticky = if self.rng.chance(2, 3) { Some((*self.rng.pick(&STICKY)).to_owned()) } else { None };
+        let params = self.gen_weight();
+        let backup = match self.rng.below(6) {
+            0 | 1 => Some(true),
+            2 => Some(false),
+            _ => None,
+        };
+        let existed = mem.iter().any(|(i, a)| *i == id && *a == addr);
+        let same_id_other_addr = !existed && mem.iter().any(|(i, _)| *i == id);
+        let same_addr_other_id = !existed && mem.iter().any(|(_, a)| *a == addr);
+        self.note(format!(
+            "add_backend {} {id}@{addr} sticky={sticky:?} weight={:?} backup={backup:?}{}",
+            CL[c],
+            params.as_ref().map(|p| p.weight),
+            if existed { " (update in place)" } else { "" }
+        ));
+        self.map.add_backend(CL[c], Backend::new(&id, addr, sticky, params, backup));
+        if !existed {
+            self.members[c].push((id, addr));
+        }
+        self.max_members = self.max_members.max(self.members[c].len());
+        self.discover();
+        if existed {
+            rep.obs("adds_update_in_place", 1);
+        }
+        if same_id_other_addr {
+            rep.obs("adds_same_id_other_address", 1);
+        }
+        if same_addr_other_id {
+            rep.obs("adds_same_address_other_id", 1);
+        }
+        self.shape.extend_from_slice(&[1, kind, existed as u8, backup.unwrap_or(false) as u8]);
+    }
+
+    fn op_remove(&mut self, rep: &mut Report, c: usize) {
+        let mem = self.members[c].clone();
+        let addr = if !mem.is_empty() && self.rng.chance(9, 10) { self.rng.pick(&mem).1 } else { *self.rng.pick(&self.addrs) };
+        let expected: Vec<String> = mem.iter().filter(|(_, a)| *a == addr).map(|(i, _)| i.clone()).collect();
+        // open connections on the objects about to leave the list
+        let open: usize = self
+            .objs
+            .iter()
+            .filter(|o| o.cluster == c && o.rc.borrow().address == addr && o.held > 0)
+            .filter(|o| self.map.backends.get(CL[c]).map(|l| l.backends.iter().any(|rc| Rc::ptr_eq(rc, &o.rc))).unwrap_or(false))
+            .count();
+        let removed = self.map.remove_backend(CL[c], &addr);
+        self.members[c].retain(|(_, a)| *a != addr);
+        self.note(format!("remove_backend {} {addr} -> {removed:?}", CL[c]));
+        if !expected.is_empty() {
+            rep.obs("removes_of_present_address", 1);
+            if expected.len() > 1 {
+                rep.obs("removes_of_address_shared_by_several_ids", 1);
+            }
+            if open > 0 {
+                rep.obs("removes_with_open_connections", 1);
+            }
+        } else {
+            rep.obs("removes_of_absent_address", 1);
+        }
+        self.shape.extend_from_slice(&[2, expected.len().min(3) as u8, (open > 0) as u8]);
+    }
+
+    fn op_health(&mut self, rep: &mut Report, c: usize) {
+        let (ht, ut) = self.thresholds[c];
+        match self.rng.below(10) {
+            0 => {
+                // outage of a shared dependency: every backend of the cluster fails its probes
+                let Some(list) = self.map.backends.get(CL[c]) else { return };
+                let all: Vec<_> = list.backends.to_vec();
+                for rc in &all {
+                    for _ in 0..ut {
+                        rc.borrow_mut().health.record_failure(ut);
+                    }
+                }
+                self.note(format!("health: {ut} failed probes on every backend of {}", CL[c]));
+                rep.obs("health_outages", 1);
+                self.shape.extend_from_slice(&[3, 0]);
+            }
+            1 => {
+                let Some(list) = self.map.backends.get(CL[c]) else { return };
+                let all: Vec<_> = list.backends.to_vec();
+                for rc in &all {
+                    for _ in 0..ht {
+                        rc.borrow_mut().health.record_success(ht);
+                    }
+                }
+                self.note(format!("health: {ht} successful probes on every backend of {}", CL[c]));
+                self.shape.extend_from_slice(&[3, 1]);
+            }
+            n => {
+                let Some(o) = self.live_obj(c) else { return };
+                let fail = n < 7;
+                let times = if self.rng.bool() { 1 } else if fail { ut } else { ht };
+                let mut transitioned = false;
+                for _ in 0..times {
+                    let mut b = self.objs[o].rc.borrow_mut();
+                    transitioned |= if fail { b.health.record_failure(ut) } else { b.health.record_success(ht) };
+                }
+                self.note(format!(
+                    "health: {times} {} probe(s) on {} (thresholds healthy={ht} unhealthy={ut}) transitioned={transitioned}",
+                    if fail { "failed" } else { "successful" },
+                    self.describe(o)
+                ));
+                if transitioned {
+                    rep.obs(if fail { "health_transitions_to_unhealthy" } else { "health_transitions_to_healthy" }, 1);
+                }
+                self.shape.extend_from_slice(&[3, 2 + fail as u8, transitioned as u8]);
+            }
+        }
+    }
+
+    fn op_health_config(&mut self, rep: &mut Report, c: usize) {
+        if self.rng.chance(1, 3) {
+            self.map.set_health_check_config(CL[c], None);
+            self.note(format!("set_health_check_config {} None (resets health)", CL[c]));
+            rep.obs("health_config_removed", 1);
+            self.shape.extend_from_slice(&[4, 0]);
+        } else {
+            let ht = self.rng.range(1, 3) as u32;
+            let ut = self.rng.range(1, 3) as u32;
+            self.thresholds[c] = (ht, ut);
+            self.map.set_health_check_config(
+                CL[c],
+                Some(HealthCheckConfig {
+                    uri: "/health".into(),
+                    interval: 10,
+                    timeout: 5,
+                    healthy_threshold: ht,
+                    unhealthy_threshold: ut,
+                    expected_status: 0,
+                }),
+            );
+            self.note(format!("set_health_check_config {} healthy_threshold={ht} unhealthy_threshold={ut}", CL[c]));
+            self.shape.extend_from_slice(&[4, 1]);
+        }
+    }
+
+    fn op_retry(&mut self, rep: &mut Report, c: usize) {
+        let Some(o) = self.live_obj(c) else { return };
+        match self.rng.below(10) {
+            0..=2 => {
+                let k = *self.rng.pick(&[0usize, 1, 1, 2, 6]);
+                self.objs[o].rc.borrow_mut().retry_policy = ExponentialBackoffPolicy::new(k).into();
+                self.note(format!("retry_policy of {} := ExponentialBackoffPolicy::new({k})", self.describe(o)));
+                rep.obs("retry_policy_replaced", 1);
+                self.shape.extend_from_slice(&[5, k as u8]);
+            }
+            3..=7 => {
+                {
+                    let mut b = self.objs[o].rc.borrow_mut();
+                    b.failures += 1;
+                    b.retry_policy.fail();
+                }
+                let down = self.objs[o].rc.borrow().retry_policy.is_down();
+                self.note(format!("connection failure on {}: failures+=1, retry_policy.fail() (down={down})", self.describe(o)));
+                rep.obs("retry_failures", 1);
+                self.shape.extend_from_slice(&[6, down as u8]);
+            }
+            _ => {
+                {
+                    let mut b = self.objs[o].rc.borrow_mut();
+                    b.failures = 0;
+                    b.retry_policy.succeed();
+                }
+                self.note(format!("connection success on {}: failures=0, retry_policy.succeed()", self.describe(o)));
+                rep.obs("retry_successes", 1);
+                self.shape.extend_from_slice(&[7]);
+            }
+        }
+    }
+
+    fn op_conn(&mut self, rep: &mut Report, c: usize) {
+        match self.rng.below(4) {
+            0 => {
+                // open without going through a selection (a session re-using a chosen backend)
+                let Some(o) = self.live_obj(c) else { return };
+                let r = self.objs[o].rc.borrow_mut().inc_connections();
+                self.note(format!("inc_connections {} -> {r:?}", self.describe(o)));
+                if r.is_some() {
+                    self.objs[o].held += 1;
+                    self.conns.push(Conn { obj: o, requests: 0, established: false });
+                    rep.obs("incs_accepted", 1);
+                } else {
+                    rep.obs("incs_refused_not_normal", 1);
+                }
+                self.shape.extend_from_slice(&[8, r.is_some() as u8]);
+            }
+            1 | 2 => {
+                // a pending connection gets established (what mux does on connect success)
+                let pending: Vec<usize> = (0..self.conns.len()).filter(|&i| !self.conns[i].established).collect();
+                if pending.is_empty() {
+                    return;
+                }
+                let i = *self.rng.pick(&pending);
+                let o = self.conns[i].obj;
+                let us = self.rng.range(50, 5_000);
+                {
+                    let mut b = self.objs[o].rc.borrow_mut();
+                    b.failures = 0;
+                    b.set_connection_time(Duration::from_micros(us));
+                    b.retry_policy.succeed();
+                    b.active_requests += 1;
+                }
+                self.conns[i].established = true;
+                self.conns[i].requests += 1;
+                self.note(format!("connection to {} established: failures=0, succeed(), active_requests+=1", self.describe(o)));
+                rep.obs("connections_established", 1);
+                self.shape.extend_from_slice(&[9]);
+            }
+            _ => {
+                // a pending connection fails (what mux does on connect error), then is closed
+                let pending: Vec<usize> = (0..self.conns.len()).filter(|&i| !self.conns[i].established).collect();
+                if pending.is_empty() {
+                    return;
+                }
+                let i = *self.rng.pick(&pending);
+                let o = self.conns[i].obj;
+                {
+                    let mut b = self.objs[o].rc.borrow_mut();
+                    b.failures += 1;
+                    b.retry_policy.fail();
+                }
+                self.note(format!("connection to {} failed: failures+=1, fail()", self.describe(o)));
+                rep.obs("connections_failed_async", 1);
+                self.close_conn(rep, i, false);
+                self.shape.extend_from_slice(&[10]);
+            }
+        }
+    }
+
+    fn op_close(&mut self, rep: &mut Report) {
+        if self.conns.is_empty() {
+            return;
+        }
+        let i = self.rng.usize_below(self.conns.len());
+        let by_address = self.close_by_address && self.rng.chance(1, 3);
+        self.close_conn(rep, i, by_address);
+        self.shape.extend_from_slice(&[11, by_address as u8]);
+    }
+
+    fn op_request(&mut self, rep: &mut Report) {
+        let est: Vec<usize> = (0..self.conns.len()).filter(|&i| self.conns[i].established).collect();
+        if est.is_empty() {
+            return;
+        }
+        let i = *self.rng.pick(&est);
+        let o = self.conns[i].obj;
+        if self.conns[i].requests > 0 && self.rng.bool() {
+            let mut b = self.objs[o].rc.borrow_mut();
+            b.active_requests = b.active_requests.saturating_sub(1);
+            self.conns[i].requests -= 1;
+        } else {
+            self.objs[o].rc.borrow_mut().active_requests += 1;
+            self.conns[i].requests += 1;
+        }
+        rep.obs("request_events", 1);
+        self.shape.extend_from_slice(&[12]);
+    }
+
+    fn op_policy(&mut self, rep: &mut Report, c: usize) {
+        let algo = *self.rng.pick(&Algo::ALL);
+        let metric = match self.rng.below(4) {
+            0 => None,
+            1 => Some(LoadMetric::Connections),
+            2 => Some(LoadMetric::Requests),
+            _ => Some(LoadMetric::ConnectionTime),
+        };
+        self.map.set_load_balancing_policy_for_cluster(CL[c], algo.proto(), metric);
+        self.algo[c] = algo;
+        self.algo_gen[c] += 1;
+        self.note(format!("set_load_balancing_policy_for_cluster {} {} metric={metric:?}", CL[c], algo.name()));
+        rep.obs(&format!("policy_switches/{}", algo.name()), 1);
+        self.shape.extend_from_slice(&[13, algo as u8, metric.map(|m| m as u8 + 1).unwrap_or(0)]);
+    }
+
+    fn op_closing(&mut self, rep: &mut Report, c: usize) {
+        let Some(o) = self.live_obj(c) else { return };
+        self.objs[o].rc.borrow_mut().set_closing();
+        self.note(format!("set_closing {} (open connections: {})", self.describe(o), self.objs[o].held));
+        rep.obs("set_closing", 1);
+        if self.objs[o].held > 0 {
+            rep.obs("set_closing_with_open_connections", 1);
+        }
+        self.shape.extend_from_slice(&[14, (self.objs[o].held > 0) as u8]);
+    }
+
+    fn op_spurious_dec(&mut self, rep: &mut Report, c: usize) {
+        // a close notification for a backend that holds no connection: must saturate, not wrap
+        let Some(o) = self.live_obj(c) else { return };
+        if self.objs[o].held != 0 {
+            return;
+        }
+        let r = self.objs[o].rc.borrow_mut().dec_connections();
+        self.note(format!("dec_connections at zero on {} -> {r:?}", self.describe(o)));
+        rep.obs("decs_at_zero", 1);
+        self.shape.extend_from_slice(&[15]);
+    }
+
+    fn op_noop(&mut self, rep: &mut Report, c: usize) {
+        match self.rng.below(3) {
+            0 => {
+                // identical re-add of a member (control plane re-emitting the same backend)
+                let Some(o) = self.live_obj(c) else { return };
+                let (id, addr, sticky, params, backup, member) = {
+                    let b = self.objs[o].rc.borrow();
+                    let m = self.members[c].iter().any(|(i, a)| *i == b.backend_id && *a == b.address);
+                    (b.backend_id.clone(), b.address, b.sticky_id.clone(), b.load_balancing_parameters, b.backup, m)
+                };
+                if !member {
+                    return;
+                }
+                self.map.add_backend(CL[c], Backend::new(&id, addr, sticky, params, Some(backup)));
+                self.discover();
+                self.note(format!("add_backend {} {id}@{addr} again with identical parameters", CL[c]));
+            }
+            1 => {
+                let a: SocketAddr = "127.12.9.9:11".parse().unwrap();
+                let r = self.map.remove_backend(CL[c], &a);
+                self.note(format!("remove_backend {} {a} (never added) -> {r:?}", CL[c]));
+            }
+            _ => {
+                // a success probe on a healthy backend
+                let Some(o) = self.live_obj(c) else { return };
+                let ht = self.thresholds[c].0;
+                let mut b = self.objs[o].rc.borrow_mut();
+                if b.health.is_healthy() {
+                    b.health.record_success(ht);
+                }
+            }
+        }
+        rep.obs("noop_steps", 1);
+        self.shape.extend_from_slice(&[16]);
+    }
+
+    fn op_sleep(&mut self, rep: &mut Report, c: usize) {
+        if !self.allow_sleep || self.slept {
+            return;
+        }
+        let before = self.snapshot(c);
+        if !before.iter().any(|b| !b.retry_ok) {
+            return;
+        }
+        self.slept = true;
+        std::thread::sleep(Duration::from_millis(1050));
+        let after = self.snapshot(c);
+        let expired = before.iter().zip(&after).filter(|(b, a)| !b.retry_ok && a.retry_ok).count();
+        self.note(format!("sleep 1050 ms ({expired} back-off window(s) of {} expired)", CL[c]));
+        rep.obs("sleeps", 1);
+        rep.obs("backoff_windows_expired_by_time", expired as u64);
+        self.shape.extend_from_slice(&[17, expired.min(3) as u8]);
+    }
+
+    fn step(&mut self, rep: &mut Report) {
+        let c = if self.rng.chance(3, 4) { 0 } else { 1 };
+        match self.rng.below(100) {
+            0..=17 => self.op_add(rep, c),
+            18..=25 => self.op_remove(rep, c),
+            26..=28 => self.op_closing(rep, c),
+            29..=41 => self.op_health(rep, c),
+            42..=44 => self.op_health_config(rep, c),
+            45..=56 => self.op_retry(rep, c),
+            57..=65 => self.op_conn(rep, c),
+            66..=75 => self.op_close(rep),
+            76..=79 => self.op_request(rep),
+            80..=87 => self.op_policy(rep, c),
+            88..=89 => self.op_spurious_dec(rep, c),
+            90..=93 => self.op_noop(rep, c),
+            94..=96 => self.op_sleep(rep, c),
+            _ => {
+                self.shape.push(18);
+            }
+        }
+        if self.dead {
+            return;
+        }
+        self.round(rep, c);
+        if self.rng.chance(1, 5) {
+            self.round(rep, 1 - c);
+        }
+        self.check_counters(rep, "after operation");
+    }
+}
+
+thread_local! {
+    static QUIET: std::cell::Cell<bool> = const { std::cell::Cell::new(false) };
+}
+
+/// sozu's thread-local logger prints errors to stdout by default ("all N backends are down" on
+/// every outage the histories provoke): switch it off for the calling thread
+fn quiet_logger() {
+    if QUIET.with(|q| q.replace(true)) {
+        return;
+    }
+    let (directives, _) = sozu_command_lib::logging::parse_logging_spec("off");
+    sozu_command_lib::logging::LOGGER.with(|l| l.borrow_mut().set_directives(directives));
+}
+
+fn run_history_inner(ctx: &Ctx, seed: u64, case: u64, rep: &mut Report, log: &RefCell<Vec<String>>) {
+    // events pushed by sozu (backend drops, availability transitions) pile up in a thread-local
+    // queue that only a running worker drains
+    sozu_lib::server::QUEUE.with(|q| q.borrow_mut().clear());
+    quiet_logger();
+    let mut rng = Rng::for_case(seed, 12, case);
+    let n_ops = rng.urange(20, ctx.tier.pick(80, 100));
+    let keys: Vec<u64> = (0..6).map(|_| if rng.chance(1, 4) { rng.below(200_000) } else { rng.next_u64() }).collect();
+    let mut addrs: Vec<SocketAddr> = GOOD_ADDRS.iter().map(|a| a.parse().unwrap()).collect();
+    if rng.chance(1, 2) {
+        addrs.extend(FAIL_ADDRS.iter().map(|a| a.parse::<SocketAddr>().unwrap()));
+    }
+    let extreme_weights = rng.chance(1, 4);
+    // `BackendMap::close_backend_connection` has no caller anywhere in sozu (sessions call
+    // `dec_connections()` on the `Rc` they hold): driving it would judge behaviour no execution of
+    // the proxy can produce, so it is off unless asked for explicitly (`--opt dead_close_api=1`).
+    // The random draw is kept so that case generation is unchanged.
+    let close_by_address = rng.chance(1, 10) && ctx.opt_u64("dead_close_api", 0) == 1;
+    let allow_sleep = rng.chance(1, 100);
+    let mut lab = Lab {
+        case,
+        seed,
+        rng,
+        map: BackendMap::new(),
+        members: [Vec::new(), Vec::new()],
+        objs: Vec::new(),
+        conns: Vec::new(),
+        algo: [Algo::Random; 2], // BackendList::new() starts with Random
+        algo_gen: [0; 2],
+        thresholds: [(3, 3); 2],
+        memo: [Vec::new(), Vec::new()],
+        memo_sig: [None, None],
+        keys,
+        addrs,
+        extreme_weights,
+        close_by_address,
+        strict_down: ctx.opt_u64("strict_down", 0) != 0,
+        allow_sleep,
+        slept: false,
+        log,
+        shape: Vec::new(),
+        reached: Reached::default(),
+        some_selection: false,
+        max_members: 0,
+        dead: false,
+    };
+
+    // start: either the replay path (import_configuration_state) or plain adds
+    if lab.rng.chance(1, 5) {
+        let mut h: HashMap<String, Vec<sozu_command_lib::response::Backend>> = HashMap::new();
+        for c in 0..2 {
+            let n = lab.rng.urange(1, 3);
+            let mut v: Vec<sozu_command_lib::response::Backend> = Vec::new();
+            for _ in 0..n {
+                let id = (*lab.rng.pick(&IDS)).to_owned();
+                let addr = *lab.rng.pick(&lab.addrs);
+                if v.iter().any(|b| b.backend_id == id && b.address == addr) {
+                    continue;
+                }
+                let params = lab.gen_weight();
+                v.push(sozu_command_lib::response::Backend {
+                    cluster_id: CL[c].to_owned(),
+                    backend_id: id.clone(),
+                    address: addr,
+                    sticky_id: if lab.rng.bool() { Some((*lab.rng.pick(&STICKY)).to_owned()) } else { None },
+                    load_balancing_parameters: params,
+                    backup: if lab.rng.chance(1, 4) { Some(true) } else { None },
+                });
+                lab.members[c].push((id, addr));
+            }
+            lab.note(format!("import_configuration_state {} {:?}", CL[c], v.iter().map(|b| format!("{}@{} sticky={:?} weight={:?} backup={:?}", b.backend_id, b.address, b.sticky_id, b.load_balancing_parameters.map(|p| p.weight), b.backup)).collect::<Vec<_>>()));
+            h.insert(CL[c].to_owned(), v);
+        }
+        lab.map.import_configuration_state(&h);
+        lab.discover();
+        lab.max_members = lab.members.iter().map(|m| m.len()).max().unwrap_or(0);
+        rep.obs("histories_started_by_import", 1);
+        lab.shape.push(0);
+    }
+    for c in 0..2 {
+        if lab.rng.chance(2, 3) {
+            lab.op_policy(rep, c);
+        }
+    }
+    for _ in 0..lab.rng.urange(1, 4) {
+        lab.op_add(rep, 0);
+    }
+    lab.round(rep, 0);
+
+    for _ in 0..n_ops {
+        if lab.dead {
+            break;
+        }
+        lab.step(rep);
+    }
+
+    // traffic ends: every connection the harness holds is closed; all counters must be zero
+    if !lab.dead {
+        while !lab.conns.is_empty() && !lab.dead {
+            let i = lab.conns.len() - 1;
+            lab.close_conn(rep, i, false);
+        }
+        lab.check_counters(rep, "end");
+        if !lab.dead {
+            rep.obs("histories_closed_to_zero", 1);
+        }
+    }
+
+    let r = &lab.reached;
+    for (k, v) in [
+        ("histories_reaching_backoff", r.backoff),
+        ("histories_reaching_down", r.down),
+        ("histories_reaching_down_outside_backoff", r.down_okay),
+        ("histories_reaching_unhealthy", r.unhealthy),
+        ("histories_reaching_closing", r.closing),
+        ("histories_reaching_closed", r.closed),
+        ("histories_reaching_fail_open", r.fail_open),
+        ("histories_with_extreme_weights", lab.extreme_weights),
+        ("histories_using_close_by_address", lab.close_by_address),
+    ] {
+        if v {
+            rep.obs(k, 1);
+        }
+    }
+    rep.obs_max("max_backends_in_a_cluster", lab.max_members as u64);
+    rep.obs_max("max_open_connections", lab.objs.iter().map(|o| o.held as u64).sum());
+    let nontrivial = lab.max_members >= 2 && lab.some_selection;
+    rep.case_bytes(&lab.shape, nontrivial);
+    if case < 2 {
+        rep.sample(json!({"case": case, "seed": seed, "ops": log.borrow().clone()}));
+    }
+}
+
+fn run_history(ctx: &Ctx, seed: u64, case: u64, rep: &mut Report) {
+    let log = RefCell::new(Vec::new());
+    if let Err(p) = guard(|| run_history_inner(ctx, seed, case, rep, &log)) {
+        let ops = log.borrow().clone();
+        if p.in_sozu() {
+            rep.violation(
+                &p.signature(),
+                &format!("sozu panicked: {} at {}", p.message, p.location),
+                json!({"case": case, "seed": seed, "panic": p.message, "location": p.location, "ops": ops}),
+            );
+        } else if p.location.contains("/c12_backends.rs") || p.location.contains("/common/") {
+            rep.broken(&format!("harness panic in case {case}: {} at {}", p.message, p.location));
+        } else {
+            // a dependency panicked while called (possibly by sozu): cannot be attributed here
+            rep.inconclusive(&format!("panic outside /repo and the harness: {} at {}", p.message, p.location));
+            rep.sample(json!({"case": case, "seed": seed, "unattributed_panic": p.message, "location": p.location, "ops": ops}));
+        }
+    }
+}
+
+pub fn run(ctx: &Ctx) -> Report {
+    let mut rep = Report::new(
+        "exploration",
+        "random histories of 20-80 (thorough: 20-100) operations on a BackendMap with two clusters sharing a pool of 6 backend ids, 8 addresses (6 connectable, 2 failing synchronously), 3 sticky ids: add (fresh / same id other address / same address other id / update in place / identical re-add), address-keyed remove (also with open connections), import_configuration_state, set_closing, health probe results up to the thresholds and cluster-wide outages, health-config reset, retry-policy replacement (max_tries 0/1/2/6), connection failures/successes, inc/dec of connections (by object and by address), request counts, switches among the six load-balancing policies with all three metrics, weights (None, 0..255, in a quarter of the histories also extreme i32 values), backup flags; after every operation: unkeyed and keyed selections through BackendList and BackendMap (same key twice), sometimes connecting selections and sticky selections; a case is non-trivial when a cluster held >= 2 backends and a selection returned a backend; distinct = distinct operation-shape sequences",
+    );
+    rep.assume("eligible := member of the cluster per the harness's own add/remove record (remove is address-keyed as documented on BackendMap::remove_backend) AND status Normal AND health Healthy AND retry_policy.can_try() == OKAY; `is_down()` (retry budget exhausted) is observed but is not part of the statement's predicate");
+    rep.assume("fail-open exemption as documented (doc/metrics.md `backends.fail_open`, doc/health_checks.md): nothing eligible, returned backend Normal and retry policy OKAY");
+    rep.assume("back-off windows are >= 1 s wall-clock and the policy's fields are private: WAIT and down states are entered through fail() on policies built with the public ExponentialBackoffPolicy::new(0|1|2|6); leaving a window by time is exercised by one 1.05 s sleep in ~1% of the histories only");
+    rep.assume("a sticky id carried by several backends of a cluster, and a sticky id naming a backup while a primary is eligible, are exempt (the statement does not order them)");
+    rep.assume("Backend.active_requests is only written by protocol code outside this lab; here it is load-metric input, its conservation is decided by the worker lab");
+    rep.assume("connecting selections whose connect() fails synchronously return no backend and are not judged (the failure itself moves the backend into back-off)");
+    for a in Algo::ALL {
+        rep.require(&format!("selections/{}", a.name()));
+    }
+    for k in [
+        "selections_keyed",
+        "selections_unkeyed",
+        "selections_eligible",
+        "selections_fail_open",
+        "selections_returned_none",
+        "sticky_hits",
+        "sticky_backend_ineligible_fallback",
+        "backup_selections",
+        "affinity_comparisons_consecutive/hrw",
+        "affinity_comparisons_consecutive/maglev",
+        "affinity_comparisons_memo/hrw",
+        "affinity_comparisons_memo/maglev",
+        "conservation_checks",
+        "connects_ok",
+        "closes",
+        "closes_on_removed_backend",
+        "removes_with_open_connections",
+        "adds_same_id_other_address",
+        "adds_same_address_other_id",
+        "adds_update_in_place",
+        "set_closing_with_open_connections",
+        "histories_reaching_backoff",
+        "histories_reaching_down",
+        "histories_reaching_down_outside_backoff",
+        "histories_reaching_unhealthy",
+        "histories_reaching_closing",
+        "histories_reaching_closed",
+        "histories_reaching_fail_open",
+        "histories_closed_to_zero",
+    ] {
+        rep.require(k);
+    }
+
+    if let Some(path) = &ctx.replay {
+        let v: Value = serde_json::from_str(&std::fs::read_to_string(path).unwrap_or_default()).unwrap_or(Value::Null);
+        let cases: Vec<(u64, u64)> = v["witnesses"]
+            .as_array()
+            .map(|a| {
+                a.iter()
+                    .filter_map(|w| Some((w["seed"].as_u64().unwrap_or(ctx.seed), w["case"].as_u64()?)))
+                    .collect()
+            })
+            .unwrap_or_default();
+        // replays need not re-observe everything
+        rep.required.clear();
+        for (seed, case) in cases {
+            run_history(ctx, seed, case, &mut rep);
+        }
+        return rep;
+    }
+    let n = ctx.opt_u64("cases", ctx.tier.pick(12_000, 600_000));
+    par_cases(ctx, &mut rep, n, |i, r| run_history(ctx, ctx.seed, i, r));
     rep
 }
